@@ -756,7 +756,53 @@ pub fn publisher_history(r: &mut Report, rng: &mut Rng, idx: u64) {
     r.nontrivial(&case);
 }
 
+/// Template worlds for settledness of publisher records: two crates.io crates that both receive
+/// publisher data (a trusted entry / a wildcard audit), one certified only through it, the other
+/// audited anyway; their published version numbers collide or not.
+pub fn gen_two_publishers_world(rng: &mut Rng) -> CmdWorld {
+    let v = |m: u64| VetVersion::parse(&format!("{m}.0.0")).unwrap();
+    let graph = gen::GGraph {
+        pkgs: vec![
+            gen::GPkg { name: "alfa".into(), version: v(1), source: 0, member: true, deps: vec![(1, 1), (2, 1)] },
+            gen::GPkg { name: "bravo".into(), version: v(2), source: 1, member: false, deps: vec![] },
+            gen::GPkg { name: "charlie".into(), version: v(3), source: 1, member: false, deps: vec![] },
+        ],
+        resolve_order: vec![0, 1, 2],
+        member_order: vec![0],
+    };
+    let config = ConfigFile { cargo_vet: Default::default(), default_criteria: get_default_criteria(), imports: SortedMap::new(), policy: Default::default(), exemptions: SortedMap::new() };
+    let mut audits = AuditsFile { criteria: SortedMap::new(), wildcard_audits: SortedMap::new(), audits: SortedMap::new(), trusted: SortedMap::new() };
+    let d2 = vec![gen::sp(SAFE_TO_DEPLOY.to_owned())];
+    audits.trusted.insert("bravo".into(), vec![TrustEntry { criteria: d2.clone(), user_id: 1, start: gen::sp(gen::date(0)), end: gen::sp(gen::date(300)), notes: None, aggregated_from: vec![] }]);
+    audits.audits.insert("charlie".into(), vec![AuditEntry { who: vec![], criteria: d2.clone(), kind: AuditKind::Full { version: v(3) }, importable: true, notes: None, aggregated_from: vec![], is_fresh_import: false }]);
+    if rng.chance(1, 2) {
+        audits.wildcard_audits.insert("charlie".into(), vec![WildcardEntry { who: vec![], criteria: d2.clone(), user_id: 2, start: gen::sp(gen::date(0)), end: gen::sp(gen::date(300)), renew: None, notes: None, aggregated_from: vec![], is_fresh_import: false }]);
+    } else {
+        audits.trusted.insert("charlie".into(), vec![TrustEntry { criteria: d2, user_id: 2, start: gen::sp(gen::date(0)), end: gen::sp(gen::date(300)), notes: None, aggregated_from: vec![] }]);
+    }
+    let mut remote = Remote::default();
+    let mut bravo = vec![RegVersion { version: semver::Version::new(2, 0, 0), user: Some(1), day: 10 }];
+    let mut charlie = vec![RegVersion { version: semver::Version::new(3, 0, 0), user: Some(2), day: 20 }];
+    for m in 1..=4u64 {
+        if m != 2 && rng.chance(1, 2) {
+            bravo.push(RegVersion { version: semver::Version::new(m, 0, 0), user: Some(1), day: 5 + m as i64 });
+        }
+        if m != 3 && rng.chance(1, 2) {
+            charlie.push(RegVersion { version: semver::Version::new(m, 0, 0), user: Some(2), day: 7 + m as i64 });
+        }
+    }
+    remote.registry.insert("bravo".into(), bravo);
+    remote.registry.insert("charlie".into(), charlie);
+    CmdWorld { graph, config, audits, remote }
+}
+
 pub fn run_history(r: &mut Report, rng: &mut Rng, idx: u64) {
+    if (r.prop == "C13" || r.prop == "C09") && idx % 8 == 7 {
+        let w = gen_two_publishers_world(rng);
+        let p = setup_project(&w);
+        exec_history(r, rng, idx, w, p, Some(vec![&[], &[], &["prune"], &[]]));
+        return;
+    }
     if r.prop == "C06" && idx % 3 == 0 {
         publisher_history(r, rng, idx);
         return;
